@@ -61,7 +61,7 @@ def b_o_Standing(
             gas_specific_gravity,
             solution_gor_initial,
         )
-        fvf_oil = np.empty_like(pressure)
+        fvf_oil = np.empty_like(pressure, dtype=float)
         fvf_oil[pressure >= pressure_bubblepoint] = fvf_bubblepoint * np.exp(
             compressibility_undersat
             * (pressure_bubblepoint - pressure[pressure >= pressure_bubblepoint])
@@ -254,7 +254,7 @@ def solution_gor_Standing(
         return gor
 
     if np.ndim(pressure) != 0:
-        solution_gor = np.full_like(pressure, solution_gor_initial)
+        solution_gor = np.full_like(pressure, solution_gor_initial, dtype=float)
         solution_gor[pressure < pressure_bubblepoint] = gor_belowbubble(
             pressure[pressure < pressure_bubblepoint]
         )
